@@ -400,6 +400,10 @@ def main(tier):
             seen[sig] = seen.get(sig, 0) + 1
             if seen[sig] > 1:
                 continue
+            per_kind = "kind:%s" % c["kind"]
+            seen[per_kind] = seen.get(per_kind, 0) + 1
+            if seen[per_kind] > 10:
+                continue  # a template-level defect shows in every enum; ten native replays per obligation kind
             ok, observed = replay(c)
             replayed += 1
             if not ok:
